@@ -10,12 +10,19 @@ coq/Model/IOSkel.v.  The translation is conservative and fails closed:
   attribute access, arithmetic, comparison, ...) becomes `MayRaise`; `raise`/`assert`/`import`
   too;
 * recognised idioms
-    x = open(..) | x = io.open(..)                    -> Open x
+    x = open(..) | x = io.open(..) | x = <m>.<opener>(..)
+                                                      -> Open x   (opener: any name of OPENERS —
+                                                         open, FileIO, fdopen, TextIOWrapper,
+                                                         NamedTemporaryFile, GzipFile, ZipFile, ...)
     with open(..) as x: body                          -> With x body
     x.close()                                         -> Close x   (CloseArg x if x may hold
                                                          an object supplied by the caller)
-    x = <anything else>  (x a tracked variable)       -> Rebind x  (rejected by the analysis
+    x = <constant | untracked name | StringIO(..) | a lasio function that calls nothing but
+         isinstance/str/.absolute()>  (x a tracked variable)
+                                                      -> Rebind x  (rejected by the analysis
                                                          wherever x may still hold an open file)
+    x = <any other call / expression>  (x tracked)    -> SkelError: the value could be a handle
+                                                         opened through an API this table does not know
     F = False ... F = True; x = open(..) ... if F: x.close()
                                                       -> Open x ... Guarded x (Close x)   (opened-flag)
     if hasattr(x, "close"): x.close()                 -> Guarded x (Close x / CloseArg x)
@@ -23,7 +30,7 @@ coq/Model/IOSkel.v.  The translation is conservative and fails closed:
                                                          translated functions; the returned handle
                                                          and the target variable share one id)
     try/finally, try/except, if/else, for, while, break, continue, return
-* anything else that involves `open`, `close`, a translated helper, an opened-flag, or that
+* anything else that involves an opener, `close`, a translated helper, an opened-flag, or that
   rebinds a tracked variable raises SkelError — Gen/Skel.v then does not compile and every
   theorem of Props/C20.v fails.
 
@@ -37,9 +44,28 @@ import os
 
 HELPERS = ["adhoc_test_encoding", "open_with_codecs", "open_file"]
 API = ["read", "write", "to_csv"]
+# functions outside las.py/reader.py that contain an open site of their own (the command-line entry point
+# `las2las`-style converter): translated so that "no open site outside the translated functions" can be
+# stated for the WHOLE package
+EXTRA = ["convert_version"]
+ALL_FUNCTIONS = HELPERS + API + EXTRA
+# callables that hand back an OS-level handle (a denylist: whatever is called by one of these names —
+# bare, or as the last attribute of a dotted name — is an open site).  urlopen / openpyxl are not listed:
+# handles opened by those libraries on lasio's behalf are outside the property's wording (c20.ASSUMPTIONS).
+OPENERS = frozenset([
+    "open", "FileIO", "fdopen", "open_code", "TextIOWrapper", "BufferedReader", "BufferedWriter",
+    "BufferedRandom", "BufferedRWPair", "NamedTemporaryFile", "TemporaryFile", "SpooledTemporaryFile",
+    "mkstemp", "GzipFile", "BZ2File", "LZMAFile", "ZipFile", "TarFile", "popen", "Popen", "openpty",
+    "pipe", "pipe2", "dup", "dup2", "socket", "socketpair", "create_connection", "fromfd", "makefile",
+    "mmap", "memmap", "DataSource", "StreamReaderWriter", "EncodedFile", "FileInput",
+])
+# constructors of in-memory objects: never a handle, whatever their arguments
+SAFE_CTORS = frozenset(["StringIO", "BytesIO"])
+# the only callees a lasio function may use and still count as "returns no handle it opened"
+PURE_CALLEES = frozenset(["isinstance", "str", "repr", "len", "absolute", "__str__", "fspath", "resolve"]) | SAFE_CTORS
 COQ_NAME = {"adhoc_test_encoding": "skel_adhoc", "open_with_codecs": "skel_open_with_codecs",
             "open_file": "skel_open_file", "read": "skel_read", "write": "skel_write",
-            "to_csv": "skel_to_csv"}
+            "to_csv": "skel_to_csv", "convert_version": "skel_convert_version"}
 
 
 class SkelError(Exception):
@@ -51,10 +77,19 @@ def fail(node, msg):
 
 
 # ---------------------------------------------------------------------------------------
+def callee_name(n):
+    """last component of the called name: f(..) -> f, a.b.f(..) -> f; None for anything else"""
+    if not isinstance(n, ast.Call):
+        return None
+    if isinstance(n.func, ast.Name):
+        return n.func.id
+    if isinstance(n.func, ast.Attribute):
+        return n.func.attr
+    return None
+
+
 def is_open_call(n):
-    return isinstance(n, ast.Call) and (
-        (isinstance(n.func, ast.Name) and n.func.id == "open")
-        or (isinstance(n.func, ast.Attribute) and n.func.attr == "open"))
+    return callee_name(n) in OPENERS
 
 
 def helper_of_call(n):
@@ -112,6 +147,7 @@ class Summary:
         self.coq = COQ_NAME[name]
         self.ret_index = None      # position of the handle in the returned tuple (None: single / none)
         self.ret_hid = None
+        self.ret_arity = None      # length of the returned tuple (None: not a tuple)
         self.ret_pcs = False       # the returned variable may hold a caller-supplied object
         self.term = None
         self.lineno = 0
@@ -122,6 +158,7 @@ class World:
     def __init__(self):
         self.hids = []             # (hid, function, variable, line)
         self.summaries = {}
+        self.handle_free_fns = {}  # relfile -> names of module-level functions that call only PURE_CALLEES
 
     def new_hid(self, fn, var, line):
         h = len(self.hids)
@@ -148,6 +185,7 @@ class FnTr:
         self.flags = {}            # flag name -> guarded variable
         self.rets = None           # list of returned tracked variables (same at every return)
         self.open_lines = []       # (line, hid) of the open sites, for the harness
+        self.collect_bindings()
         self.prepass()
 
     # ---- pre-pass: tracked variables, flags ------------------------------------------
@@ -227,6 +265,16 @@ class FnTr:
                 or not isinstance(t.elts[s.ret_index], ast.Name):
             fail(n, "result of %s must be unpacked into a tuple with a plain variable at position %d"
                  % (s.name, s.ret_index))
+        # the Call node grants the caller's variable the handle: sound only if nothing can fail between the
+        # callee's `return` and the store into that variable — the tuple has exactly the callee's arity (no
+        # ValueError on unpacking) and every target stored BEFORE the handle is a plain name (stores run left
+        # to right; `self.x, f = helper()` could raise with the open file bound to nothing)
+        if any(isinstance(e, ast.Starred) for e in t.elts) or len(t.elts) != s.ret_arity:
+            fail(n, "result of %s (a %d-tuple at every return) unpacked into %d targets"
+                 % (s.name, s.ret_arity, len(t.elts)))
+        for e in t.elts[: s.ret_index]:
+            if not isinstance(e, ast.Name):
+                fail(n, "a store that can raise precedes the store of the handle returned by %s" % s.name)
         return t.elts[s.ret_index].id
 
     def check_flags(self):
@@ -293,17 +341,61 @@ class FnTr:
                         if isinstance(it.optional_vars, ast.Name) and it.optional_vars.id == x:
                             fail(n, "flag-guarded variable %s also bound by with" % x)
 
+    def name_is_handle_free(self, nm, seen):
+        """nm is an untracked parameter, or a local every binding of which is a handle-free value"""
+        if nm in self.hid or nm in OPENERS or nm in seen:
+            return False
+        bs = self.bindings.get(nm)
+        if bs is None:
+            return nm in self.params
+        return all(b is not None and self.handle_free_value(b, seen | {nm}) for b in bs)
+
+    def collect_bindings(self):
+        """name -> list of the values it is assigned (None = bound in a way that is not `name = value`)"""
+        self.bindings = {}
+        for n in ast.walk(self.node):
+            if isinstance(n, ast.Assign):
+                for t in n.targets:
+                    if isinstance(t, ast.Name):
+                        self.bindings.setdefault(t.id, []).append(n.value)
+                    else:
+                        for nm in stored_names(t):
+                            self.bindings.setdefault(nm, []).append(None)
+            elif isinstance(n, (ast.AnnAssign, ast.AugAssign, ast.NamedExpr)):
+                for nm in stored_names(n.target):
+                    self.bindings.setdefault(nm, []).append(None)
+            elif isinstance(n, (ast.For, ast.comprehension)):
+                for nm in stored_names(n.target):
+                    self.bindings.setdefault(nm, []).append(None)
+            elif isinstance(n, ast.With):
+                for it in n.items:
+                    if it.optional_vars is not None:
+                        for nm in stored_names(it.optional_vars):
+                            self.bindings.setdefault(nm, []).append(None)
+            elif isinstance(n, ast.ExceptHandler) and n.name:
+                self.bindings.setdefault(n.name, []).append(None)
+            elif isinstance(n, (ast.Import, ast.ImportFrom)):
+                for a in n.names:
+                    self.bindings.setdefault((a.asname or a.name).split(".")[0], []).append(None)
+            elif isinstance(n, (ast.FunctionDef, ast.ClassDef)) and n is not self.node:
+                self.bindings.setdefault(n.name, []).append(None)
+        for nm in self.params:
+            if nm in self.bindings:
+                self.bindings[nm].append(ast.Constant(value=None))     # the caller's value: not opened by lasio
+
     # ---- fail-closed scan of anything translated generically --------------------------
     def mentions_io(self, node):
         for n in ast.walk(node):
             if is_open_call(n) or helper_of_call(n):
                 return True
-            if isinstance(n, ast.Name) and (n.id == "open" or n.id in HELPERS):
+            if isinstance(n, ast.Name) and (n.id in OPENERS or n.id in HELPERS):
                 return True
-            if isinstance(n, ast.Attribute) and (n.attr in ("close", "open", "__exit__", "__enter__")
-                                                 or n.attr in HELPERS):
+            if isinstance(n, ast.Attribute) and (n.attr in ("close", "__exit__", "__enter__", "detach", "closefd")
+                                                 or n.attr in OPENERS or n.attr in HELPERS):
                 return True
-            if isinstance(n, ast.Constant) and isinstance(n.value, str) and n.value in ("close", "open"):
+            if isinstance(n, ast.Constant) and isinstance(n.value, str) and (n.value == "close" or n.value in OPENERS):
+                return True
+            if isinstance(n, ast.alias) and (n.name.split(".")[-1] in OPENERS or (n.asname or "") in OPENERS):
                 return True
         return False
 
@@ -379,7 +471,7 @@ class FnTr:
             if isinstance(s, (ast.Import, ast.ImportFrom)):
                 for a in s.names:
                     nm = (a.asname or a.name).split(".")[0]
-                    if nm in self.hid or nm in self.flags or nm == "open":
+                    if nm in self.hid or nm in self.flags or nm in OPENERS:
                         fail(s, "import rebinds %s" % nm)
             return [("MayRaise", L, type(s).__name__.lower())]
         if isinstance(s, ast.Return):
@@ -422,12 +514,33 @@ class FnTr:
         self.generic_ok(s, "assignment", allow_store=True)
         out = [] if (pure(s.value) and simple_targets(s.targets)) else [("MayRaise", L, "assignment")]
         # x = <not a file lasio opens>, e.g. the sentinel file_obj = "": the analysis rejects
-        # it wherever x may still hold an open file
+        # it wherever x may still hold an open file.  The value must be one this table KNOWS not to be a
+        # handle: a constant, an untracked name, an in-memory constructor, or a lasio function that calls
+        # nothing but isinstance/str/...; anything else (x = io.FileIO(p), x = os.fdopen(fd), x = helper(p)
+        # with an unknown helper, tuple unpacking of a call) could be a file opened through an API the
+        # translator does not know, and x is later closed / returned as THE handle: fail closed.
         for t in s.targets:
             for nm in stored_names(t):
                 if nm in self.hid:
+                    if not (isinstance(t, ast.Name) and self.handle_free_value(s.value)):
+                        fail(s, "tracked variable %s bound from a value that cannot be classified as "
+                                "not-a-handle (only constants, untracked names, %s and call-free lasio "
+                                "functions are)" % (nm, "/".join(sorted(SAFE_CTORS))))
                     out.append(("Rebind", self.hid[nm], L, nm))
         return out
+
+    def handle_free_value(self, v, seen=None):
+        if isinstance(v, ast.Constant):
+            return True
+        if isinstance(v, ast.Name):
+            return self.name_is_handle_free(v.id, seen or frozenset())
+        if isinstance(v, ast.Call):
+            nm = callee_name(v)
+            if nm in SAFE_CTORS:
+                return True
+            if isinstance(v.func, ast.Name) and nm in self.w.handle_free_fns.get(self.relfile, ()):
+                return True
+        return False
 
     def call_helper(self, s, call, target):
         L = s.lineno
@@ -473,7 +586,10 @@ class FnTr:
             self.generic_ok(v, "return value")
             if not pure(v):
                 out.append(("MayRaise", L, "return value"))
-        r = (names, (idx[0] if (idx and isinstance(v, ast.Tuple)) else None))
+        r = (names, (idx[0] if (idx and isinstance(v, ast.Tuple)) else None),
+             (len(v.elts) if (names and isinstance(v, ast.Tuple)) else None))
+        if names and isinstance(v, ast.Tuple) and any(isinstance(e, ast.Starred) for e in v.elts):
+            fail(s, "starred element in a returned tuple that carries a handle")
         if self.rets is None:
             self.rets = r
         elif self.rets != r:
@@ -564,7 +680,7 @@ class FnTr:
 
     def translate(self):
         items = self.block(self.node.body, top=True)
-        names, idx = self.rets if self.rets is not None else ([], None)
+        names, idx, arity = self.rets if self.rets is not None else ([], None, None)
         sm = Summary(self.name)
         sm.term = self.seq(items)
         sm.lineno = self.node.lineno
@@ -572,6 +688,7 @@ class FnTr:
         if names:
             sm.ret_hid = self.hid[names[0]]
             sm.ret_index = idx
+            sm.ret_arity = arity
             sm.ret_pcs = names[0] in self.pcs
         sm.open_lines = sorted(set(self.open_lines))
         return sm
@@ -618,7 +735,8 @@ def paren(t, ind):
 
 def find_functions(repo):
     out = {}
-    for rel, names, cls in (("lasio/reader.py", HELPERS, None), ("lasio/las.py", API, "LASFile")):
+    for rel, names, cls in (("lasio/reader.py", HELPERS, None), ("lasio/las.py", API, "LASFile"),
+                            ("lasio/convert_version.py", EXTRA, None)):
         src = open(os.path.join(repo, rel)).read()
         tree = ast.parse(src)
         scope = tree.body
@@ -635,43 +753,92 @@ def find_functions(repo):
     return out
 
 
+def handle_free_functions(tree):
+    """module-level functions that call nothing but PURE_CALLEES and each other, define nothing and mention
+    no opener: whatever they return is not a handle they opened (reader.check_for_path_obj)"""
+    defs = {}
+    for n in tree.body:
+        if isinstance(n, ast.FunctionDef):
+            defs.setdefault(n.name, []).append(n)
+    memo = {}
+
+    def ok(name, stack):
+        if name in memo:
+            return memo[name]
+        if name in stack or len(defs.get(name, [])) != 1:
+            return False
+        node = defs[name][0]
+        good = True
+        for n in ast.walk(node):
+            if isinstance(n, ast.Call):
+                c = callee_name(n)
+                if c in PURE_CALLEES:
+                    continue
+                if isinstance(n.func, ast.Name) and c in defs and ok(c, stack | {name}):
+                    continue
+                good = False
+            elif isinstance(n, (ast.Lambda, ast.Yield, ast.YieldFrom, ast.Await, ast.With, ast.AsyncWith,
+                                ast.Global, ast.Nonlocal, ast.ClassDef)):
+                good = False
+            elif isinstance(n, ast.FunctionDef) and n is not node:
+                good = False
+            elif isinstance(n, ast.Name) and n.id in OPENERS:
+                good = False
+            elif isinstance(n, ast.Attribute) and n.attr in OPENERS:
+                good = False
+            elif isinstance(n, ast.alias) and (n.name.split(".")[-1] in OPENERS or (n.asname or "") in OPENERS):
+                good = False
+        memo[name] = good
+        return good
+
+    return {nm for nm in defs if ok(nm, frozenset())}
+
+
+def package_modules(repo):
+    """every Python source file of the lasio package (relative paths), sub-packages included"""
+    out = []
+    base = os.path.join(repo, "lasio")
+    for root, dirs, files in os.walk(base):
+        dirs[:] = sorted(x for x in dirs if x != "__pycache__")
+        for f in sorted(files):
+            if f.endswith(".py") or f.endswith(".pyw") or f.endswith(".pyx"):
+                out.append(os.path.relpath(os.path.join(root, f), repo).replace(os.sep, "/"))
+    return sorted(out)
+
+
 def package_closure(repo):
-    """modules of the lasio package reachable from las.py through relative imports"""
-    seen, todo = set(), ["las"]
-    while todo:
-        m = todo.pop()
-        if m in seen:
-            continue
-        p = os.path.join(repo, "lasio", m + ".py")
-        if not os.path.exists(p):
-            continue
-        seen.add(m)
-        for n in ast.walk(ast.parse(open(p).read())):
-            if isinstance(n, ast.ImportFrom) and n.level >= 1:
-                if n.module:
-                    todo.append(n.module.split(".")[0])
-                else:
-                    todo.extend(a.name for a in n.names)
-            if isinstance(n, ast.Import):
-                for a in n.names:
-                    if a.name.startswith("lasio."):
-                        todo.append(a.name.split(".")[1])
-    return sorted(seen)
+    """(kept for callers of the old name) — now the whole package, not the modules las.py reaches"""
+    return package_modules(repo)
 
 
 def other_open_sites(repo, fns):
-    """open(..)/x.open(..) calls and .close() calls in the modules las.py can reach, outside the
-    six translated functions (an `open` there would be invisible to the skeletons)"""
+    """open sites anywhere in the lasio package outside the translated functions (an `open` there would be
+    invisible to the skeletons):
+      * a call of any name of OPENERS (open, io.open, x.open, io.FileIO, os.fdopen, gzip.GzipFile, ...);
+      * a way of reaching an opener under another name: `f = open`, `from io import open as f`,
+        `getattr(io, "open")`, a re-definition `open = ...`.
+    `def open(..)` (lasio.examples.open) is not a site by itself: calls of it are still calls of the name
+    `open` (sites), and an opener call in its body is a site of its own."""
     covered = {}
     for nm, (node, rel) in fns.items():
         covered.setdefault(rel, []).append((node.lineno, node.end_lineno))
     sites = []
-    for m in package_closure(repo):
-        rel = "lasio/%s.py" % m
+    for rel in package_modules(repo):
         tree = ast.parse(open(os.path.join(repo, rel)).read())
+        callees = {id(n.func) for n in ast.walk(tree) if isinstance(n, ast.Call)}
         for n in ast.walk(tree):
-            hit = is_open_call(n) or (isinstance(n, ast.Name) and n.id == "open" and isinstance(n.ctx, ast.Store))
-            if isinstance(n, ast.FunctionDef) and n.name == "open":
+            hit = is_open_call(n)
+            if isinstance(n, ast.Name) and n.id in OPENERS:
+                if isinstance(n.ctx, (ast.Store, ast.Del)) or id(n) not in callees:
+                    hit = True                                   # open = ..., f = open, map(open, ..)
+            if isinstance(n, ast.Attribute) and n.attr in OPENERS and id(n) not in callees:
+                hit = True                                       # f = io.open
+            if isinstance(n, (ast.Import, ast.ImportFrom)):
+                for a in n.names:
+                    if a.asname and a.asname != a.name and (a.name.split(".")[-1] in OPENERS or a.asname in OPENERS):
+                        hit = True                               # from io import open as f
+            if isinstance(n, ast.Call) and callee_name(n) in ("getattr", "__getattribute__", "attrgetter", "methodcaller") \
+                    and any(isinstance(a, ast.Constant) and a.value in OPENERS for a in n.args):
                 hit = True
             if hit and not any(a <= n.lineno <= b for a, b in covered.get(rel, [])):
                 sites.append("%s:%d" % (rel, n.lineno))
@@ -681,7 +848,9 @@ def other_open_sites(repo, fns):
 def translate(repo):
     fns = find_functions(repo)
     w = World()
-    for nm in HELPERS + API:
+    for rel in sorted({rel for _, rel in fns.values()}):
+        w.handle_free_fns[rel] = handle_free_functions(ast.parse(open(os.path.join(repo, rel)).read()))
+    for nm in ALL_FUNCTIONS:
         node, rel = fns[nm]
         try:
             w.summaries[nm] = FnTr(w, nm, node, rel).translate()
@@ -693,7 +862,7 @@ def translate(repo):
 def render(repo):
     w, others = translate(repo)
     out = []
-    out.append("(* GENERATED by translators/skeleton.py from lasio/las.py and lasio/reader.py — do not edit.")
+    out.append("(* GENERATED by translators/skeleton.py from lasio/las.py, lasio/reader.py and lasio/convert_version.py — do not edit.")
     out.append("   handle ids (one per variable that holds a file; a helper's returned variable and the")
     out.append("   caller's target share the id):")
     for h, fn, var, line in w.hids:
@@ -704,19 +873,21 @@ def render(repo):
     out.append("Require Import IOSkel.")
     out.append("Open Scope string_scope.")
     out.append("")
-    for nm in HELPERS + API:
+    for nm in ALL_FUNCTIONS:
         sm = w.summaries[nm]
         out.append("(* %s:%d  def %s *)" % (sm.file, sm.lineno, nm))
         out.append("Definition %s : stmt :=\n%s." % (sm.coq, show(sm.term, 1)))
         out.append("Definition rets_%s : list nat := [%s]." %
                    (sm.coq[5:], "" if sm.ret_hid is None else str(sm.ret_hid)))
         out.append("")
-    out.append("(* open(..) call sites in modules reachable from las.py outside the six functions *)")
+    out.append("(* opener call sites / opener aliases anywhere in the lasio package (%d source files scanned: %s)"
+               % (len(package_modules(repo)), ", ".join(package_modules(repo))))
+    out.append("   outside the translated functions *)")
     out.append("Definition other_open_sites : list string := [%s]." % "; ".join('"%s"' % s for s in others))
     out.append("")
     out.append("(* source line of every open site -> handle id (used by the fault-injection harness) *)")
     rows = []
-    for nm in HELPERS + API:
+    for nm in ALL_FUNCTIONS:
         sm = w.summaries[nm]
         for line, hid in sm.open_lines:
             rows.append('("%s:%d", %d)' % (sm.file, line, hid))
@@ -728,7 +899,7 @@ def open_site_table(repo):
     """{(relfile, line): hid} for the harness"""
     w, _ = translate(repo)
     t = {}
-    for nm in HELPERS + API:
+    for nm in ALL_FUNCTIONS:
         sm = w.summaries[nm]
         for line, hid in sm.open_lines:
             t[(sm.file, line)] = hid
@@ -745,10 +916,32 @@ def local_open_sites(repo):
     """{function: {(relfile, line)}} — open sites whose handle the function does not return"""
     w, _ = translate(repo)
     t = {}
-    for nm in HELPERS + API:
+    for nm in ALL_FUNCTIONS:
         sm = w.summaries[nm]
         t[nm] = {(sm.file, line) for line, hid in sm.open_lines if hid != sm.ret_hid}
     return t
+
+
+def caller_object_hids(repo):
+    """{function: hid} — the id under which close() of an object the caller supplied appears in the function's
+    skeleton (its CloseArg node; read() closes the file object it is given under the id of open_file's result)"""
+    w, _ = translate(repo)
+
+    def walk(t):
+        if isinstance(t, tuple) and t and t[0] == "CloseArg":
+            yield t[1]
+        if isinstance(t, (tuple, list)):
+            for x in t:
+                if isinstance(x, (tuple, list)):
+                    for y in walk(x):
+                        yield y
+
+    out = {}
+    for nm in ALL_FUNCTIONS:
+        hs = sorted(set(walk(w.summaries[nm].term)))
+        if len(hs) == 1:
+            out[nm] = hs[0]
+    return out
 
 
 if __name__ == "__main__":
